@@ -1,15 +1,20 @@
 package core
 
 import (
+	"bytes"
+	"context"
 	"crypto/sha1"
 	"encoding/json"
 	"fmt"
 	"math/rand"
 	"os"
+	"os/exec"
 	"path/filepath"
 	"runtime/debug"
 	"sort"
+	"strconv"
 	"strings"
+	"time"
 )
 
 // Driver is one property's correspondence driver.
@@ -219,4 +224,78 @@ func (c *Ctx) finish() error {
 		fmt.Fprintf(&ib, "%d %x\n", cs.Index, sha1.Sum([]byte(cs.Gallina)))
 	}
 	return os.WriteFile(filepath.Join(c.Out, "index.txt"), []byte(ib.String()), 0o644)
+}
+
+// ---- crash probing -------------------------------------------------------
+//
+// Some violations kill the whole process (a panic outside every recover, e.g.
+// in a goroutine started by the implementation); core.Guard cannot turn those
+// into observations.  A driver that wants them as observations first runs
+// itself in a child process in "probe mode": the child executes the same
+// deterministic case stream (same seed, tier, -only), prints PROBE-BEGIN n /
+// PROBE-END n around each case and writes nothing; the parent learns which
+// case indices crash the process and reports them instead of running them.
+
+// Probing reports whether this process is the probe child.
+func (c *Ctx) Probing() bool { return os.Getenv("VERIFHARNESS_PROBE") != "" }
+
+// ProbeSkip reports whether the probe child must not execute this case (it
+// already killed an earlier child).
+func (c *Ctx) ProbeSkip(idx int) bool {
+	for _, f := range strings.Split(os.Getenv("VERIFHARNESS_PROBE_SKIP"), ",") {
+		if n, err := strconv.Atoi(f); err == nil && n == idx {
+			return true
+		}
+	}
+	return false
+}
+
+// ProbeMark prints a marker of the probe protocol.
+func (c *Ctx) ProbeMark(what string, idx int) {
+	fmt.Printf("PROBE-%s %d\n", what, idx)
+	os.Stdout.Sync()
+}
+
+// Advance consumes the next case index without recording a case.
+func (c *Ctx) Advance() { c.next++ }
+
+// ProbeCrashes runs this binary in probe mode (restarting it after each crash)
+// and returns, for every case index during which the child died, an excerpt
+// of what the child wrote to stderr.
+func (c *Ctx) ProbeCrashes() map[int]string {
+	crashed := map[int]string{}
+	var skip []string
+	for round := 0; round < 25; round++ {
+		ctx, cancel := context.WithTimeout(context.Background(), 15*time.Minute)
+		cmd := exec.CommandContext(ctx, os.Args[0], os.Args[1:]...)
+		cmd.Env = append(os.Environ(), "VERIFHARNESS_PROBE=1", "VERIFHARNESS_PROBE_SKIP="+strings.Join(skip, ","))
+		var so, se bytes.Buffer
+		cmd.Stdout, cmd.Stderr = &so, &se
+		err := cmd.Run()
+		cancel()
+		if err == nil {
+			return crashed
+		}
+		open := -1
+		for _, l := range strings.Split(so.String(), "\n") {
+			var n int
+			if _, e := fmt.Sscanf(l, "PROBE-BEGIN %d", &n); e == nil {
+				open = n
+			} else if _, e := fmt.Sscanf(l, "PROBE-END %d", &n); e == nil && n == open {
+				open = -1
+			}
+		}
+		msg := se.String()
+		if len(msg) > 3000 {
+			msg = msg[:3000]
+		}
+		if open < 0 {
+			// died outside any case: nothing more to learn from restarting
+			crashed[-1] = fmt.Sprintf("probe child failed outside a case (%v): %s", err, msg)
+			return crashed
+		}
+		crashed[open] = fmt.Sprintf("%v: %s", err, msg)
+		skip = append(skip, strconv.Itoa(open))
+	}
+	return crashed
 }
